@@ -820,6 +820,15 @@ func (c *Ctx) comparatorShape(lf *ssa.Function) (primary string, tie bool) {
 			}
 		}
 	}
+	// the tie must be recognised as one: `a.CreatedAt == b.CreatedAt` on time.Time compares the wall reading, the
+	// monotonic reading and the *Location pointer, not the instant - two equal instants parsed from `Z` and `+00:00`
+	// (or from two lines with the same numeric offset: a fresh FixedZone each) are unequal under ==, the id tie-break
+	// is skipped and the order of equal instants is whatever the input order (a map) was. Only Equal/Compare decide ties
+	eachInstr(lf, func(r instrRef) {
+		if b, ok := r.In.(*ssa.BinOp); ok && (b.Op == token.EQL || b.Op == token.NEQ) && namedTypeName(b.X.Type()) == "time.Time" {
+			tie = false
+		}
+	})
 	return
 }
 
